@@ -424,6 +424,15 @@ class Reach:
             self.visit(st, cond, env)
             if not isinstance(st, (ast.If, ast.For, ast.While, ast.Try, ast.With)):
                 self.defined |= assigned_names([st])
+            # a store into an attribute / item invalidates bindings that read it
+            if isinstance(st, (ast.Assign, ast.AugAssign, ast.Delete)):
+                tgts = st.targets if isinstance(st, (ast.Assign, ast.Delete)) else [st.target]
+                for t in tgts:
+                    for sub in ast.walk(t):
+                        if isinstance(sub, (ast.Attribute, ast.Subscript)) and isinstance(sub.ctx, (ast.Store, ast.Del)):
+                            text = u(sub) if isinstance(sub, ast.Attribute) else u(sub.value)
+                            for k in [k for k, v in env.items() if text in u(v)]:
+                                del env[k]
             if isinstance(st, ast.Assign):
                 if len(st.targets) == 1 and isinstance(st.targets[0], ast.Name):
                     self.bind(env, st.targets[0].id, st.value)
